@@ -109,17 +109,20 @@ func runC07(c c07Case) *Violation {
 	inFlightSeen := int32(0)
 
 	answered := func(b *WBatch) (AckObs, bool) {
-		// a value already received, or receivable right now
-		if vs := b.values(); len(vs) > 0 {
-			return vs[0], true
+		// a value already received, or receivable right now. The observer and the
+		// Flush callers all come through here: taking the value off the channel and
+		// recording it is one step under the batch's lock, otherwise a caller can
+		// find the channel already emptied and the record not yet written.
+		b.mu.Lock()
+		defer b.mu.Unlock()
+		if len(b.Recv) > 0 {
+			return b.Recv[0], true
 		}
 		if b.ChanKind == "buf" {
 			select {
 			case err := <-b.Ch:
-				b.mu.Lock()
 				b.Recv = append(b.Recv, AckObs{err, tr.tick()})
-				b.mu.Unlock()
-				return AckObs{Err: err}, true
+				return b.Recv[0], true
 			default:
 			}
 		}
@@ -131,7 +134,8 @@ func runC07(c c07Case) *Violation {
 		}
 		if b.ChanKind == "unbuf" {
 			// the receiver goroutine appends after its receive completed
-			deadline := time.Now().Add(40 * time.Millisecond)
+			// (generous: it is only ever waited out when a violation is about to be reported)
+			deadline := time.Now().Add(2 * time.Second)
 			for time.Now().Before(deadline) {
 				time.Sleep(time.Millisecond)
 				if a, ok := answered(b); ok {
